@@ -181,26 +181,27 @@ def gen_ref(rng, L):
     return ''.join(s)
 
 
-def make_read(rng, ref, meth, conv_base, s, e, rev, fancy=False, qchoices=(2, 12, 20, 30, 37, 40), err=0.04):
+def make_read(rng, ref, meth, conv_base, s, e, rev, fancy=False, qchoices=(2, 12, 20, 30, 37, 40), err=0.04, g=None):
     """a read aligned to ref[s:e); methylated conv_base positions are read as converted (C>T / G>A)"""
+    g = g or rng          # g draws the geometry (cigar), rng the bases
     L = len(ref)
     s = max(0, min(s, L - 1)); e = max(s + 1, min(e, L))
     n = e - s
     cigar = [[0, n]]
     if fancy and n >= 4:
-        k = rng.randint(1, n - 2)
-        r = rng.random()
+        k = g.randint(1, n - 2)
+        r = g.random()
         if r < 0.4:
-            cigar = [[0, k], [1, rng.randint(1, 2)], [0, n - k]]
+            cigar = [[0, k], [1, g.randint(1, 2)], [0, n - k]]
         elif r < 0.8:
-            d = rng.randint(1, min(2, n - k - 1))
+            d = g.randint(1, min(2, n - k - 1))
             cigar = [[0, k], [2, d], [0, n - k - d]]
         else:
             cigar = [[0, k], [3, 1], [0, n - k - 1]]
-        if rng.random() < 0.5:
-            cigar = [[4, rng.randint(1, 3)]] + cigar
-        if rng.random() < 0.5:
-            cigar = cigar + [[4, rng.randint(1, 3)]]
+        if g.random() < 0.5:
+            cigar = [[4, g.randint(1, 3)]] + cigar
+        if g.random() < 0.5:
+            cigar = cigar + [[4, g.randint(1, 3)]]
     seq = []
     rp = s
     for op, ln in cigar:
@@ -226,55 +227,60 @@ def make_read(rng, ref, meth, conv_base, s, e, rev, fancy=False, qchoices=(2, 12
             'rev': rev, 'md': True}
 
 
-def gen_case(rng, Lchoices=(3, 4, 5, 6, 8, 12, 20, 40, 80)):
-    L = rng.choice(Lchoices)
-    ref = gen_ref(rng, L)
+def gen_case(rng, Lchoices=(3, 4, 5, 6, 8, 12, 20, 40, 80), ref=None, g=None):
+    """one simulated molecule.  g (default rng) draws everything that fixes the GEOMETRY and configuration (classes,
+    strand convention, coordinates, cigars); rng draws reference, methylation, bases and qualities: two calls with
+    equally seeded g on two contigs of the same length give molecules at the same coordinates"""
+    g = g or rng
+    if ref is None:
+        ref = gen_ref(rng, rng.choice(Lchoices))
+    L = len(ref)
     mrate = rng.choice([0, 0.3, 0.8, 1])
     meth = set(i for i in range(L) if rng.random() < mrate)
-    klass = rng.choice(['chic', 'nla'])
-    taps_strand = rng.choice(['F', 'R', None])
-    invert = rng.random() < 0.25
-    unsafe = rng.random() < 0.25
+    klass = g.choice(['chic', 'nla'])
+    taps_strand = g.choice(['F', 'R', None])
+    invert = g.random() < 0.25
+    unsafe = g.random() < 0.25
     kw = None
-    if rng.random() < 0.3:
-        kw = {'dove_R1_distance': rng.randint(0, 3), 'dove_R2_distance': rng.randint(0, 3),
-              'min_phred_score': rng.choice([None, 13, 30])}
-    r1rev = rng.random() < 0.5
+    if g.random() < 0.3:
+        kw = {'dove_R1_distance': g.randint(0, 3), 'dove_R2_distance': g.randint(0, 3),
+              'min_phred_score': g.choice([None, 13, 30])}
+    r1rev = g.random() < 0.5
     strand = (not r1rev) if invert else r1rev
     ts = taps_strand or 'R'
     conv = ('G' if strand else 'C') if ts == 'F' else ('C' if strand else 'G')
     if rng.random() < 0.1:
         conv = 'C' if conv == 'G' else 'G'   # chemistry on the unexpected strand
-    nfr = rng.choice([1, 1, 2, 2, 3, 4])
+    nfr = g.choice([1, 1, 2, 2, 3, 4])
     qch = rng.choice([(2, 12, 20, 30, 37, 40), (30,), (20, 30)])
     err = rng.choice([0, 0.04, 0.15])
     frags = []
-    a0 = rng.choice([0, 0, 1, 2, rng.randrange(L)])
-    b0 = rng.choice([L, L, L - 1, L - 2, rng.randint(1, L)])
+    a0 = g.choice([0, 0, 1, 2, g.randrange(L)])
+    b0 = g.choice([L, L, L - 1, L - 2, g.randint(1, L)])
     for i in range(nfr):
-        a = rng.choice([0, 0, 1, 2, rng.randrange(L)])
-        b = rng.choice([L, L, L - 1, L - 2, rng.randint(1, L)])
-        if rng.random() < 0.8:      # same R1 anchor: the fragments join one molecule
+        a = g.choice([0, 0, 1, 2, g.randrange(L)])
+        b = g.choice([L, L, L - 1, L - 2, g.randint(1, L)])
+        if g.random() < 0.8:      # same R1 anchor: the fragments join one molecule
             if r1rev:
                 b = b0
             else:
                 a = a0
         a = max(0, min(a, L - 1)); b = max(a + 1, min(b, L))
-        layout = rng.choice(['inward', 'inward', 'inward', 'dove', 'single', 'r1none', 'same'])
-        if i == 0 and layout == 'r1none' and rng.random() < 0.7:
+        layout = g.choice(['inward', 'inward', 'inward', 'dove', 'single', 'r1none', 'same'])
+        if i == 0 and layout == 'r1none' and g.random() < 0.7:
             layout = 'inward'
-        nl = rng.randint(1, b - a); nr = rng.randint(1, b - a)
-        fancy = rng.random() < 0.2
-        rv = r1rev if rng.random() > 0.08 else (not r1rev)
+        nl = g.randint(1, b - a); nr = g.randint(1, b - a)
+        fancy = g.random() < 0.2
+        rv = r1rev if g.random() > 0.08 else (not r1rev)
         left, right = (a, a + nl), (b - nr, b)          # forward mate left, reverse mate right
         if layout == 'dove':                            # the reverse mate starts before the forward mate
-            sh = rng.randint(1, 4)
+            sh = g.randint(1, 4)
             left = (min(L - 1, a + sh), min(L, a + sh + nl))
-            right = (max(0, a - rng.randint(0, 2)), max(left[0] + 1, b - rng.randint(0, 3)))
-        fw_read = make_read(rng, ref, meth, conv, left[0], left[1], False, fancy, qch, err)
-        rv_read = make_read(rng, ref, meth, conv, right[0], right[1], True, fancy, qch, err)
+            right = (max(0, a - g.randint(0, 2)), max(left[0] + 1, b - g.randint(0, 3)))
+        fw_read = make_read(rng, ref, meth, conv, left[0], left[1], False, fancy, qch, err, g)
+        rv_read = make_read(rng, ref, meth, conv, right[0], right[1], True, fancy, qch, err, g)
         r1, r2 = (rv_read, fw_read) if rv else (fw_read, rv_read)
-        r1['md'] = rng.random() > 0.03; r2['md'] = rng.random() > 0.03
+        r1['md'] = g.random() > 0.03; r2['md'] = g.random() > 0.03
         if layout == 'single':
             r2 = None
         elif layout == 'r1none':
@@ -282,9 +288,40 @@ def gen_case(rng, Lchoices=(3, 4, 5, 6, 8, 12, 20, 40, 80)):
         elif layout == 'same':
             r2['rev'] = r1['rev']
         frags.append([r1, r2])
-    return {'ref': ref, 'refkind': rng.choice(['pysam', 'cached', 'cachednh']), 'klass': klass, 'taps_strand': taps_strand,
+    return {'ref': ref, 'refkind': g.choice(['pysam', 'cached', 'cachednh']), 'klass': klass, 'taps_strand': taps_strand,
             'unsafe': unsafe, 'invert': invert, 'kw': kw, 'frags': frags, 'meth': sorted(meth), 'conv': conv,
-            'force': rng.random() < 0.5}
+            'force': g.random() < 0.5}
+
+
+def gen_history(rng):
+    """2-6 molecules on a reference of 2-3 contigs of equal length and different sequence, to be called by ONE TAPS
+    object: most molecules share their geometry (same coordinates on different contigs, and on the same contig again)"""
+    import random as _random
+    L = rng.choice([5, 6, 8, 12, 20, 40, 80])
+    c0 = gen_ref(rng, L)
+    c1 = gen_ref(rng, L)
+    contigs = [c0, c1]
+    if rng.random() < 0.5:       # a third contig: the first with a quarter of its bases replaced
+        contigs.append(''.join(rng.choice('ACGT') if rng.random() < 0.25 else b for b in c0))
+    seeds = [rng.getrandbits(32) for _ in range(2)]
+    nm = rng.randint(2, 6)
+    order = [rng.randrange(len(contigs)) for _ in range(nm)]
+    if len(set(order)) == 1:
+        order[-1] = (order[0] + 1) % len(contigs)
+    mols = []
+    for k in range(nm):
+        gs = seeds[0] if rng.random() < 0.7 else (seeds[1] if rng.random() < 0.5 else rng.getrandbits(32))
+        m = gen_case(rng, ref=contigs[order[k]], g=_random.Random(gs))
+        m['contig'] = order[k]
+        del m['ref'], m['refkind']
+        mols.append(m)
+    return {'contigs': contigs, 'refkind': rng.choice(['pysam', 'cached', 'cachednh']), 'mols': mols}
+
+
+def history_case(h, k):
+    """molecule k of history h as a stand-alone case (its own contig as the reference)"""
+    c = dict(h['mols'][k]); c['ref'] = h['contigs'][c['contig']]; c['refkind'] = h['refkind']
+    return c
 
 
 def exhaustive_small_cases(alphabet='ACGTN', n=3):
@@ -379,13 +416,11 @@ def spec_violations(case, res):
     # positions that may be called: inside the mate-overlap-safe span of a fragment, aligned, MD base = base
     allowed = set()
     for a, b in res['abstract']:
-        if a is None:
-            continue
-        r1 = a[0]; r2 = b[0] if b is not None else None
+        r1 = a[0] if a is not None else None; r2 = b[0] if b is not None else None
         if case['unsafe']:
             lo, hi = None, None
         else:
-            if r2 is None:
+            if r1 is None or r2 is None:
                 continue
             if r1[0] and not r2[0]:
                 lo, hi = r2[1] + d2, r1[2] - d1 - 1
@@ -470,7 +505,8 @@ class Prop(fw.PropBase):
         'qual (mean phred, a float), XR/XG and YC tags are outside the property and not compared',
     ]
     ASSUMPTIONS = [
-        'fragments hold [R1, R2] (either may be None), mapped reads with ACGTN query bases on one contig; '
+        'fragments hold [R1, R2] (either may be None), mapped reads with ACGTN query bases, all reads of one molecule on one '
+        'contig (different molecules of a history on different contigs); '
         'skip_first/last_n_cycles consensus options are left at None',
         'reference characters are ASCII (str.upper modelled on a-z)',
     ]
@@ -486,7 +522,9 @@ class Prop(fw.PropBase):
         if os.path.isdir(CORPUS):
             for fn in sorted(os.listdir(CORPUS)):
                 if fn.endswith('.json'):
-                    cases.append(json.load(open(os.path.join(CORPUS, fn)))['case'])
+                    d = json.load(open(os.path.join(CORPUS, fn)))
+                    if 'case' in d:
+                        cases.append(d['case'])
         self.n_corpus = len(cases)
         ex = exhaustive_small_cases('ACGTN', 3)
         if not quick:
@@ -498,18 +536,45 @@ class Prop(fw.PropBase):
             cases.append(gen_case(self.rng))
         return cases
 
-    def run_impl_batched(self, cases):
-        res = []
+    def gen_histories(self):
+        n = 300 if self.tier == 'quick' else 8000
+        hs = []
+        if os.path.isdir(CORPUS):
+            for fn in sorted(os.listdir(CORPUS)):
+                if fn.endswith('.json'):
+                    d = json.load(open(os.path.join(CORPUS, fn)))
+                    if 'history' in d:
+                        hs.append(d['history'])
+        return hs + [gen_history(self.rng) for _ in range(n)]
+
+    def run_impl_batched(self, cases, hists=()):
+        res, hres = [], []
         B = 4000
         for i in range(0, len(cases), B):
             res += fw.run_impl('impl_c14.py', {'cases': cases[i:i + B]})['cases']
-        return res
+        for i in range(0, len(hists), 1000):
+            hres += fw.run_impl('impl_c14.py', {'histories': hists[i:i + 1000]})['histories']
+        return res, hres
+
+    def flatten(self, cases, res, hists, hres):
+        """history molecules appended to the single-molecule stream as stand-alone cases (own contig as reference),
+        annotated with (history index, position in the history)"""
+        cases, res = list(cases), list(res)
+        self.n_single = len(cases)
+        for hi, (h, rs) in enumerate(zip(hists, hres)):
+            for k, r in enumerate(rs):
+                c = history_case(h, k)
+                c['_hist'] = [hi, k]
+                cases.append(c); res.append(r)
+        return cases, res
 
     # ---------------------------------------------------------------- K
     def correspondence(self):
-        cases = self.gen_cases()
-        res = self.run_impl_batched(cases)
-        self.cases, self.res = cases, res
+        singles = self.gen_cases()
+        hists = self.gen_histories()
+        res, hres = self.run_impl_batched(singles, hists)
+        cases, res = self.flatten(singles, res, hists, hres)
+        self.cases, self.res, self.hists = cases, res, hists
         herr = [r['harness_error'] for r in res if 'harness_error' in r]
         if herr:
             raise fw.Broken('correspondence', 'harness could not build %d molecules; first: %s' % (len(herr), herr[0]))
@@ -538,11 +603,28 @@ class Prop(fw.PropBase):
                     nontrivial.add(fw.canon_hash(i))
                 ends = sum(1 for k in o[0] if k[0] <= 1 or k[0] >= L - 2)
                 hist['entries_within_2_of_contig_end'] += ends
-        pre = None
+        seen = {}
+        for c, o in zip(cases, impl):
+            if '_hist' not in c or not isinstance(o[0], list) or o == [-1]:
+                continue
+            hi, k = c['_hist']
+            d = seen.setdefault(hi, {})
+            for e in o[0]:
+                prev = d.setdefault(e[0], [])
+                if any(pc != c['contig'] for pc in prev):
+                    hist['history_entries_at_coordinate_called_before_on_other_contig'] += 1
+                if any(pc == c['contig'] for pc in prev):
+                    hist['history_entries_at_coordinate_called_before_on_same_contig'] += 1
+                prev.append(c['contig'])
+        hist['histories'] = len(hists)
+        hist['history_molecules'] = len(cases) - self.n_single
         self.cov.update({
             'evaluations': len(cases),
             'distinct_nontrivial': len(nontrivial),
-            'rule': 'molecules of 1-4 fragments simulated on random references (length 3-80, CpG enriched, N / IUPAC / '
+            'rule': 'HISTORIES of 2-6 molecules on 2-3 contigs of different sequence called by ONE TAPS object (same '
+                    'coordinates on different contigs and on the same contig again; model mode 4 = history through one '
+                    'object, theorem C14_history_stateless) and single molecules with a fresh object: '
+                    'molecules of 1-4 fragments simulated on random references (length 3-80, CpG enriched, N / IUPAC / '
                     'soft-masked bases, random methylation, conversion noise, sequencing errors, indels/soft clips, '
                     'dove-tailed / single-end / same-orientation mates, missing MD) through the real TAPSCHICMolecule / '
                     'TAPSNlaIIIMolecule.__finalise__ with pysam.FastaFile / CachedFasta references, plus every reference of '
@@ -552,9 +634,9 @@ class Prop(fw.PropBase):
             'histogram': dict(hist), 'letters': dict(letters),
             'corpus_cases': self.n_corpus, 'exhaustive_small_reference_cases': self.n_exhaustive,
             'exhaustive': False,
-            'samples': [{'case': {k: cases[i][k] for k in ('ref', 'refkind', 'klass', 'taps_strand', 'unsafe', 'invert', 'force', 'kw', 'frags') if k in cases[i]},
+            'samples': [{'case': {k: cases[i][k] for k in ('ref', 'refkind', 'klass', 'taps_strand', 'unsafe', 'invert', 'force', 'kw', 'frags', 'contig', '_hist') if k in cases[i]},
                          'impl_calls': res[i].get('calls'), 'impl_tags': res[i].get('tags')}
-                        for i in (self.n_corpus + 77, len(cases) - 3)],
+                        for i in (self.n_corpus + 77, len(cases) - 1)],
         })
         # the statement evaluated directly on the implementation's output (also used by search)
         sv = 0
@@ -568,7 +650,15 @@ class Prop(fw.PropBase):
                                                  'directly on the implementation output' % (sv, len(tv))))
         if not self.model_ok:
             return
-        mout = fw.run_model('C14', 0, inputs)
+        ns = self.n_single
+        mout = fw.run_model('C14', 0, inputs[:ns])
+        hin, pos = [], ns
+        for h in hists:
+            hin.append(inputs[pos:pos + len(h['mols'])]); pos += len(h['mols'])
+        for hi_, hv in zip(hin, fw.run_model('C14', 4, hin) if hin else []):
+            mout += hv if hv != [-2] else [[-2]] * len(hi_)
+        if len(mout) != len(inputs):
+            raise fw.Broken('model', 'history mode returned %d results for %d molecules' % (len(mout), len(inputs)))
         mpre = fw.run_model('C14', 1, inputs)
         self.cov['precondition_hit_rate'] = round(sum(1 for x in mpre if x == 1) / len(mpre), 4)
         dis = []
@@ -586,8 +676,14 @@ class Prop(fw.PropBase):
             exp = [ord(lt['False'].get(k, '\0')), ord(lt['True'].get(k, '\0'))]
             if m != exp:
                 dis.append({'index': -1, 'case': {'table_key': k}, 'model': m, 'impl': exp})
-        idx = sorted(self.rng.sample(range(len(cases)), 100))
+        idx = sorted(self.rng.sample(range(ns), 90))
+        hidx = sorted(self.rng.sample(range(len(hin)), min(10, len(hin))))
         ok, nm, log = fw.vm_crosscheck('C14', 0, [(inputs[i], mout[i]) for i in idx])
+        if ok and hidx:
+            hm = fw.run_model('C14', 4, [hin[i] for i in hidx])
+            ok, nm2, log = fw.vm_crosscheck('C14', 4, [(hin[i], o) for i, o in zip(hidx, hm)])
+            nm += nm2
+            idx = idx + hidx
         self.cov['vm_compute_crosscheck'] = {'cases': len(idx), 'mismatches': nm}
         if not ok:
             raise fw.Broken('extraction', 'vm_compute and extracted model disagree: ' + log[-800:])
@@ -602,8 +698,9 @@ class Prop(fw.PropBase):
         """The statement of C14 transcribed in python (spec_violations / table_violations above: independent of the
         Coq model and of position_to_context) evaluated on the implementation's outputs; smallest witness per kind."""
         if getattr(self, 'res', None) is None:
-            self.cases = self.gen_cases()
-            self.res = self.run_impl_batched(self.cases)
+            singles, self.hists = self.gen_cases(), self.gen_histories()
+            res, hres = self.run_impl_batched(singles, self.hists)
+            self.cases, self.res = self.flatten(singles, res, self.hists, hres)
         live = getattr(self, 'live_table', None)
         if live is None:
             try:
@@ -622,11 +719,24 @@ class Prop(fw.PropBase):
                 v = [('error', '__finalise__ raised ' + r['error'])]
             else:
                 v = spec_violations(c, r)
-            for key, what in v:
+            keys = ('ref', 'refkind', 'klass', 'taps_strand', 'unsafe', 'invert', 'force', 'kw', 'frags')
+            if '_hist' in c:
+                hi, k = c['_hist']
+                h = self.hists[hi]
+                winput = {'one TAPS() object calls these molecules in order; the violation is on the last':
+                          {'contigs': h['contigs'], 'refkind': h['refkind'],
+                           'mols': [{x: m[x] for x in ('contig',) + keys if x in m} for m in h['mols'][:k + 1]]}}
+                size = len(json.dumps(winput))
+                prefix = 'history:' if k > 0 else ''
+            else:
+                winput = {x: c[x] for x in keys if x in c}
                 size = len(json.dumps(c['frags'])) + len(c['ref'])
+                prefix = ''
+            for key, what in v:
+                key = prefix + key
                 if key not in best or size < best[key][0]:
                     best[key] = (size, {'key': key, 'what': what,
-                                        'input': {k: c[k] for k in ('ref', 'refkind', 'klass', 'taps_strand', 'unsafe', 'invert', 'force', 'kw', 'frags') if k in c},
+                                        'input': winput,
                                         'impl': {'calls': r.get('calls'), 'tags': r.get('tags'), 'strand': r.get('strand'),
                                                  'error': r.get('error')},
                                         'expected': 'see what'})
